@@ -549,8 +549,10 @@ class F1Model:
             self.terminal = (t.code, self.pos)
 
     # ---- what end() must return after exactly this input
-    def eof_expectation(self):
-        """None = not decided by the model; else (code, [tail events] | None)"""
+    def eof_expectation(self, yields_delivered=False):
+        """None = not decided by the model; else (code, [tail events] | None).
+        yields_delivered: the observed trace already returned every yield the model has produced,
+        so none of them is still pending when end() is called."""
         if self.terminal is not None:
             if self.terminal[0] == "DONE" and self.spec["tail"]["kind"] == "done" and self.finished_clean and self.pos == len(self.data):
                 return ("DONE", [])
@@ -568,7 +570,7 @@ class F1Model:
             m.__dict__.update(self.__dict__)
             m.out = {k: (bytearray(v) if isinstance(v, bytearray) else v) for k, v in self.out.items()}
             pending = [self.events[i]["name"] for i in self.since if self.events[i]["kind"] == "hook"]
-            if any(self.events[i]["kind"] == "yield" for i in self.since):
+            if any(self.events[i]["kind"] == "yield" for i in self.since) and not yields_delivered:
                 return None    # a yield pending at EOF: end() returns it first; left to the laws
             m.events = []
             m.since = []
@@ -732,7 +734,9 @@ def check_f1_eof(spec, data, canon, flags):
             break
         m = F1Model(spec, data[:i])
         m.run()
-        exp = m.eof_expectation()
+        obs_y = sum(1 for st in canon.steps[:j] if st.cls == "YIELD")
+        mod_y = sum(1 for e in m.events if e["kind"] == "yield")
+        exp = m.eof_expectation(yields_delivered=(obs_y == mod_y))
         if exp is None:
             continue
         group = canon.eofs[j]
